@@ -163,6 +163,11 @@ func scenFED(s *sched.Sim, cfg Config, res *Result) {
 	if gc.Sanitize {
 		of.NodeRoot = false
 	}
+	if prop == "C01" && s.T.Bool(1, 4) {
+		// (C02 and C12 look at what the harness queryers record)
+		gc.DefaultFactory = true
+		res.Probe("fed.gateway-default-queryer-factory")
+	}
 	env, err := newFedEnv(s, res, w, gc, prop)
 	if err != nil {
 		// the merger rejected a set of schemas that follows the federation contract: nothing to
@@ -173,7 +178,7 @@ func scenFED(s *sched.Sim, cfg Config, res *Result) {
 	}
 	sizeCap := 3000
 	if cfg.Thorough {
-		sizeCap = 12000
+		sizeCap = 4000
 	}
 	nOps := 1 + s.T.Choose(3)
 	overlap := s.T.Bool(1, 2)
@@ -188,7 +193,7 @@ func scenFED(s *sched.Sim, cfg Config, res *Result) {
 		fo.want = env.reference(op)
 		// nested lists multiply: an answer with tens of thousands of values means thousands of
 		// goroutines per level and costs minutes of scheduling without reaching anything new
-		for d := maxDepth - 2; d >= 2 && kind == ast.Query && jsonSize(gql.ToJSONValue(fo.want)) > sizeCap; d -= 2 {
+		for d := maxDepth - 2; d >= 2 && jsonSize(gql.ToJSONValue(fo.want)) > sizeCap; d -= 2 {
 			res.Probe("fed.answer-too-large-redrawn")
 			fo.op = gql.GenOp(s.T, w, w.Union, kind, of, d, 24)
 			fo.want = env.reference(fo.op)
